@@ -464,14 +464,19 @@ func findingClass(ci *caseInfo) string {
 			return "error-type-differs-between-levels"
 		}
 	}
-	if e.Resp.Body != nil && e.Resp.Body.Attr != "" {
-		return "error-body-attribute-ignored"
-	}
 	// string attributes that travel in headers
 	var hv []string
 	if e.Def.T == nil {
 		if e.Resp.Body != nil && e.Resp.Body.Empty && ci.Err != nil {
 			hv = append(hv, ci.Err.ID, ci.Err.Message)
+		}
+		if e.Resp.Body != nil && e.Resp.Body.Attr != "" && ci.Err != nil { // the other attributes: goa-attribute-* headers
+			if e.Resp.Body.Attr != "id" {
+				hv = append(hv, ci.Err.ID)
+			}
+			if e.Resp.Body.Attr != "message" {
+				hv = append(hv, ci.Err.Message)
+			}
 		}
 		for _, h := range e.Resp.Headers {
 			if ci.Err != nil {
